@@ -7,6 +7,15 @@ CH = {"a": "a", "W": "甲", "d": "1", "sp": " ", "tab": "\t", "LF": "\n", "CR": 
       "bt": "`", "col": "：", "comma": "，", "pause": "、", "q": "？", "eq": "=", "plus": "+", "slash": "/", "star": "*", "let": "令", "with": "以", "this": "其", "is": "为",
       "and": "且", "dot": "之", "zhu": "注", "hash": "#", "ctl": "\x01", "nul": "\x00", "bang": "！", "semi": "；"}
 INV = {v: k for k, v in CH.items()}
+# further members of the classes (TLC enumerates class strings; the binding replays each with the canonical member and
+# with randomly drawn other members): every blank of the lexer's table, other letters/digits, every quote family,
+# ASCII twins of the punctuation, other operators, keywords, control characters / BOM / U+FFFD / non-characters
+ALT = {"sp": ["\u3000", "\x0b", "\x0c", "\u00a0", "\u2000", "\u2003", "\u2009", "\u200a", "\u200b", "\u202f", "\u205f"],
+       "a": ["Z", "é", "_"], "W": ["あ", "한", "龥", "𠀀"], "d": ["0", "9", "７"], "lq": ["「", "『", "‘", "《"], "rq": ["」", "』", "’", "》"],
+       "lb": ["["], "rb": ["]"], "lp": ["("], "rp": [")"], "col": [":"], "comma": [","], "q": ["?"], "bang": ["!"], "semi": [";"],
+       "eq": [">", "<"], "plus": ["-"], "slash": ["|", "\\"], "star": ["%"], "hash": ["@", "$", "&", "~"],
+       "let": ["如果", "每当", "遍历", "输出", "拦截", "导入", "定义", "如何", "抛出", "否则", "再如", "得到", "恒为"], "with": ["何为", "新建"], "this": ["此"], "is": ["不为", "等于", "大于"],
+       "and": ["或"], "dot": ["的"], "ctl": ["\x7f", "\x1b", "\x08", "\ufeff", "\ufffd", "\u2028", "\u0085", "\ufffe"], "LF": ["\n"], "CR": ["\r"]}
 
 
 def lines_of(text):
@@ -65,10 +74,18 @@ def run(ctx):
     # ---- design: the outcome automaton (all outcomes of all texts <= 2) ; text enumeration <= 3 and a 1/30 (thorough: all) of length 4
     common.tlc(ctx, "ZnFront", "MC_ZnFront_2.cfg", timeout=600)
     texts = []
+    alt_texts = []
     for cfg in ["MC_ZnFront_3.cfg", "MC_ZnFront_4.cfg" if quick else "MC_ZnFront_4all.cfg"]:
         t, _ = common.tlc(ctx, "ZnFront", cfg, timeout=3000, extra=["-seed", str(ctx.seed)])
-        texts += ["".join(CH[c] for c in v["s"]) for v in common.vectors(t, "src")]
+        vs = common.vectors(t, "src")
+        texts += ["".join(CH[c] for c in v["s"]) for v in vs]
+        for v in vs:
+            if any(c in ALT for c in v["s"]) and (len(v["s"]) <= 3 or rnd.random() < (0.2 if quick else 1.0)):
+                for _ in range(1 if quick else 3):
+                    alt = [rnd.choice(ALT[c] + [CH[c]]) if c in ALT else CH[c] for c in v["s"]]
+                    alt_texts.append("".join(alt))
     texts = sorted(set(texts))
+    alt_texts = sorted(set(alt_texts) - set(texts))
     # ---- token-level corruptions of grammar-covering programs (TLC: one delete / duplicate / swap at every position) + truncation at every offset
     progs = gramfam.family("quick", rnd)
     progs = rnd.sample(progs, 14 if quick else 60)
@@ -83,6 +100,8 @@ def run(ctx):
     cases, meta = [], []
     for t in texts:
         cases.append(dict(id=len(cases), text=t)); meta.append(("chars", t))
+    for t in alt_texts:
+        cases.append(dict(id=len(cases), text=t)); meta.append(("chars-alt", t))
     seen = set()
     for v in muts:
         k = (v["id"], tuple(v["out"]))
@@ -159,4 +178,4 @@ def run(ctx):
                     "records are checked by the Python mirror of ZnFront!OutcomeOK; %d records (all texts <= 3, a sample of the rest, accepted mutant trees) are validated by "
                     "TLC against Trace_ZnFront" % (len(progs), nlines),
                outcome_counts=outcomes, char_texts=len(texts), mutants=len(mtexts), truncations=len(tcases), varinput_texts=len(vcases))
-    return cov, ["one concrete character per class", "TLC validates a sample of the outcome records (JSON size); the Python mirror of the same predicate checks all of them"]
+    return cov, ["TLC enumerates class strings; each is replayed with the canonical member and with 1 (thorough 3) random draws of other members", "TLC validates a sample of the outcome records (JSON size); the Python mirror of the same predicate checks all of them"]
